@@ -228,10 +228,13 @@ def nestings(seed, limit=None, depth=1):
                 continue
             combos.append((wn, 'in', inn))
         for wn2 in WRAPPERS:
-            if wn in SIMPLE_CHILD and wn2 in ('footnote', 'caption', 'itemize', 'enumerate',
+            if wn in SIMPLE_CHILD and wn2 in ('itemize', 'enumerate',
                                               'theorem', 'proof', 'unknown_env', 'section',
                                               'subsection*', 'chapter_opt', 'theorem_opt',
                                               'proof_opt'):
+                continue
+            if wn in SIMPLE_CHILD and wn2 in ('footnote', 'caption', 'ftwo') and wn not in (
+                    'section', 'subsection*', 'chapter_opt'):
                 continue
             combos.append((wn, 'wr', wn2))
     rnd.shuffle(combos)
